@@ -162,19 +162,19 @@ theorem clamp_eq_zero_iff (w : Nat) (p : PoolBlocks) (hw : 1 ≤ w) : clamp w p 
   simp only
   split <;> omega
 
-theorem resetTicks_zero (ps : List PoolBlocks) : resetTicks 0 ps = 0 := by
+theorem resetTicksOld_zero (ps : List PoolBlocks) : resetTicksOld 0 ps = 0 := by
   induction ps with
   | nil => rfl
-  | cons p ps ih => simp [resetTicks, clamp_zero, poolTicks_zero, ih]
+  | cons p ps ih => simp [resetTicksOld, clamp_zero, poolTicks_zero, ih]
 
-theorem resetTicks_le (w : Nat) (ps : List PoolBlocks) : resetTicks w ps ≤ numBlocks ps := by
+theorem resetTicksOld_le (w : Nat) (ps : List PoolBlocks) : resetTicksOld w ps ≤ numBlocks ps := by
   induction ps generalizing w with
-  | nil => simp [resetTicks, numBlocks]
+  | nil => simp [resetTicksOld, numBlocks]
   | cons p ps ih =>
-    simp only [resetTicks, numBlocks]
+    simp only [resetTicksOld, numBlocks]
     have := ih (clamp w p)
     by_cases h : clamp w p = 0
-    · rw [h, poolTicks_zero, resetTicks_zero]; omega
+    · rw [h, poolTicks_zero, resetTicksOld_zero]; omega
     · rw [poolTicks_pos _ _ (by omega)]; omega
 
 /-! ### reported fraction -/
